@@ -218,6 +218,7 @@ class World:
         elif k == 'become':
             apply_become(self.m, op[1])
             self.variant = self.variant + (op[1],)
+            self.sampler = None      # a sampler object copied the model when it was created: it is stale after an edit
             for x in DESC[op[1]]:
                 if x in self.pool.stores:
                     st = self.pool.remove_store(x)
